@@ -692,11 +692,9 @@ func (ls *LanceroSource) launchLanceroReader() {
 					}
 					dev.card.ReleaseBytes(dropFromStart) // we could instead remember dropFromStart and add it
 					// to the later call to ReleaseBytes
-					dropFromEnd := dev.frameSize - dropFromStart
-					if dropFromEnd <= 0 {
-						fmt.Printf("firstWord %v, dropFromStart %v, dropFromEnd %v\n", firstWord, dropFromEnd, dropFromStart)
-						panic("expect dropFromEnd>0")
-					}
+					// Keep whole frames only. (The first frame start can be more than one frame into
+					// the buffer when the lost bytes joined the frame-bit-free parts of two frames.)
+					dropFromEnd := (len(b) - dropFromStart) % dev.frameSize
 					b = b[dropFromStart : len(b)-dropFromEnd]
 					fractionOfSampledPeriod := float64(dropFromEnd) / float64(dev.frameSize)
 					timeFix = timeFix.Add(-ls.samplePeriod * time.Duration(fractionOfSampledPeriod))
